@@ -52,7 +52,7 @@ Theorem c01_sharded_source_coherent : forall t shards n, coherent (sharded_sourc
 Proof. exact sharded_source_coherent. Qed.
 (* ... and VecOpsImpl::split never produces more partitions than asked for, nor an empty list *)
 Theorem c01_vec_split_shape : forall data n,
-    vec_split data n <> [] /\ length (vec_split data n) <= Nat.max n 1.
+    vec_split data n <> [] /\ (length (vec_split data n) <= Nat.max n 1)%nat.
 Proof. exact vec_split_shape. Qed.
 
 (* non-vacuity: a concrete plan with a barrier, a global combine and a join is in the fragment *)
